@@ -1,6 +1,7 @@
 package sim
 
 import (
+	"context"
 	"sync"
 	"database/sql"
 	"errors"
@@ -144,7 +145,7 @@ func RunStoreSim(prop string, tr *Trace, sc *Script, rec *Recorder, scratch stri
 		case 5:
 			return Op{K: "par", A: []int64{int64(r.U64() >> 1), int64(r.U64() >> 1), int64(r.Range(15, 50))}}, true
 		case 4:
-			mode := []int64{0, 0, 0, 1, 2, 3, 3, 4, 4, 5, 6}[r.Intn(11)]
+			mode := []int64{0, 0, 0, 1, 2, 3, 3, 4, 4, 5, 6, 7, 8, 8}[r.Intn(14)]
 			return Op{K: "faultblock", A: []int64{int64(r.U64() >> 1), int64(r.Intn(int(cfg["max_gap"]) + 1)), mode, int64(1 + r.Intn(90)), int64(r.Intn(3))}}, true
 		}
 		return Op{}, false
@@ -203,7 +204,21 @@ func RunStoreSim(prop string, tr *Trace, sc *Script, rec *Recorder, scratch stri
 					first -= off
 				}
 			}
-			if err := w.store.Reorg(first); err != nil {
+			// a third of the reorgs run while another query of the same store is in flight (an API request holding its
+			// row cursor): the rewind then runs on another pooled connection
+			var inflight *sql.Rows
+			if uint64(op.Arg(0)+op.Arg(1))%3 == 0 {
+				if rows, qerr := storeDB(w.store).Query("SELECT num FROM block ORDER BY num"); qerr == nil {
+					rows.Next()
+					inflight = rows
+					rec.Stats.Inc("reorgs_with_a_reader_in_flight")
+				}
+			}
+			err := w.store.Reorg(first)
+			if inflight != nil {
+				inflight.Close()
+			}
+			if err != nil {
 				return fail("process", "reorg-error", "Reorg(%d) failed: %v", first, err)
 			}
 			dropped := w.rewindModel(first)
@@ -387,6 +402,46 @@ func (w *storeWorld) faultBlock(op Op, fail func(string, string, string, ...any)
 			if v := clean(); v != nil {
 				return v
 			}
+		}
+		rec.Step(fmt.Sprintf("F%d.%d", mode, len(b.Events)))
+	case 7, 8: // the caller's context is cancelled mid-block: before statement k (7) / while row change k is written (8)
+		ctx, cancel := context.WithCancel(context.Background())
+		p := &FaultPlan{Yield: cancel}
+		what := "cancel_at_statement"
+		if mode == 7 {
+			p.YieldAt = k
+		} else {
+			p.RowYieldAt, what = 1+(k-1)%40, "cancel_at_row"
+		}
+		ArmFault(path, p)
+		err := w.store.ProcessBlockCtx(ctx, b)
+		DisarmFault(path)
+		cancel()
+		if p.Yields == 0 {
+			if err != nil {
+				return fail("process", "process-error", "ProcessBlock(%d) failed although its context was never cancelled: %v", b.Num, err)
+			}
+			break // the block has fewer statements / rows than k: processed normally
+		}
+		rec.Stats.Inc("fault_fired_" + what)
+		if err == nil {
+			// the cancellation came too late to stop the block: it must be there completely (checked against the
+			// reference right after this op)
+			rec.Stats.Inc("cancelled_block_committed")
+			break
+		}
+		post, derr := rawDigest(w.store)
+		if derr != nil {
+			return fail("harness", "digest", "digest: %v", derr)
+		}
+		if post != pre {
+			return fail("atomicity", "partial-block", "after a context cancellation in ProcessBlock(%d) the stored tables differ from the pre-block state", b.Num)
+		}
+		if lp, _ := w.store.LastProcessed(); lp != preLast {
+			return fail("atomicity", "last-processed-moved", "after a context cancellation last processed block moved %d -> %d", preLast, lp)
+		}
+		if v := clean(); v != nil {
+			return v
 		}
 		rec.Step(fmt.Sprintf("F%d.%d", mode, len(b.Events)))
 	case 3: // crash image in the middle of the transaction
